@@ -90,7 +90,8 @@ def setup_crate(project_dir, body, router=False):
     os.makedirs(CRATE, exist_ok=True)
     os.makedirs(os.path.join(CRATE, "src"), exist_ok=True)
     cargo = open(os.path.join(TEMPLATE, "Cargo.toml.in")).read().replace("@METADATA@", metadata_of(project_dir))
-    cargo = cargo.replace("@EXTRA_DEPS@", 'leptos_i18n_router = { path = "/repo/leptos_i18n_router", features = ["verif_hooks", "ssr"] }' if router else "")
+    cargo = cargo.replace("@EXTRA_DEPS@", ('leptos_i18n_router = { path = "/repo/leptos_i18n_router", features = ["verif_hooks", "ssr"] }\n'
+                                             'leptos_router = { version = "0.7.7", default-features = false, features = ["ssr"] }') if router else "")
     with open(os.path.join(CRATE, "Cargo.toml"), "w") as f:
         f.write(cargo)
     if os.path.exists("/repo/Cargo.lock") and not os.path.exists(os.path.join(CRATE, "Cargo.lock")):
